@@ -4,7 +4,7 @@
 From stdpp Require Import gmap.
 From DS Require Import Base RepoConstants Decimal StreamValue Aggregators Outcome OutcomeCodec ObservationCodec MercuryAgg MercuryReport
   TextForms EvmInt EvmCodecs EvmSpec PluginReports OutcomeCodecProofs EvmCodecProofs NoPanicProofs ReportsNoPanic.
-From DS Require Observe ValidateProofs.
+From DS Require Observe ValidateProofs MercuryWire.
 
 Example C11_gen_widths_complete : evm_type_widths = solidity_widths.
 Proof. reflexivity. Qed.
@@ -98,6 +98,15 @@ Theorem C11_mercury_aggregates_no_panic :
   (forall xs f, is_panic (max_finalized_block xs f) = false) /\ (forall obs f, is_panic (latest_block obs f) = false).
 Proof. exact mercury_aggregates_no_panic. Qed.
 Print Assumptions C11_mercury_aggregates_no_panic.
+(* ... and from the observation BYTES (MercuryWire: proto.Unmarshal of the four observation messages, compared with
+   the real library on every observation incl. damaged encodings): undecodable observations are dropped, nothing panics *)
+Theorem C11_mercury_bytes_no_panic : forall ver c prev replen (raws : list bytes), (forall rf, is_panic (replen rf) = false) ->
+  is_panic (report234 ver c prev replen (MercuryReport.omap (MercuryWire.merc_decode234 ver) raws)) = false /\
+  forall replen1, (forall rf, is_panic (replen1 rf) = false) ->
+  is_panic (report1 c prev replen1 (MercuryReport.omap MercuryWire.merc_decode1 raws)) = false.
+Proof.
+  intros ver c prev replen raws H. split; [apply report234_no_panic; exact H|]. intros replen1 H1. apply report1_no_panic. exact H1.
+Qed.
 (* observations that fail parsing / validation are ignored when mixed with good ones *)
 Theorem C11_invalid_observations_ignored : forall ver c prev replen obs,
   report234 ver c prev replen obs =
